@@ -96,7 +96,7 @@ class RecordingPool(simpool.MPPool):
 # point clouds
 # ---------------------------------------------------------------------------
 CLOUDS = ['blob', 'two', 'three', 'elongated', 'curved', 'face', 'corner',
-          'wrapped', 'fill']
+          'wrapped', 'fill', 'many', 'triangles']
 
 
 def draw_cloud(rng, d=None, kinds=None):
@@ -146,6 +146,26 @@ def make_cloud(spec):
         pts = g.exponential(w, (n, d))
         if g.random() < 0.5:
             pts[:, -1] = 1 - pts[:, -1] - 1e-9
+    elif kind == 'many':
+        k = int(g.integers(8, 15))
+        cs = g.uniform(0.08, 0.92, (k, d))
+        m = max(n // k, 3 * d + 4)
+        pts = np.vstack([gauss(c, w * 0.15, m) for c in cs])
+    elif kind == 'triangles':
+        # two filled triangles whose bases face each other across a gap:
+        # two disjoint ellipsoids that are jointly bigger than one
+        m = n // 2
+        tri = []
+        for apex_x, base_x in ((0.1, 0.4), (0.9, 0.6)):
+            v = np.array([[apex_x, 0.5], [base_x, 0.2], [base_x, 0.8]])
+            a, b = g.random(m), g.random(m)
+            flip = a + b > 1
+            a[flip], b[flip] = 1 - a[flip], 1 - b[flip]
+            tri.append(v[0] + a[:, None] * (v[1] - v[0]) +
+                       b[:, None] * (v[2] - v[0]))
+        xy = np.vstack(tri)
+        pts = gauss(np.full(d, 0.5), w * 0.2, len(xy))
+        pts[:, :2] = xy
     elif kind == 'wrapped':
         pts = gauss(g.uniform(0.3, 0.7, d), w, n)
         pts[:, 0] = (g.normal(size=n) * w) % 1.0
@@ -175,6 +195,13 @@ def draw_bound_spec(rng, classes=None, d_max=8, clouds=None, networks=None):
     if cls in ('NeuralBound', 'NautilusBound'):
         d = min(d, 5)
     cloud = draw_cloud(rng, d, clouds)
+    if cls != 'Union' and cloud['kind'] == 'many':
+        # a dozen clusters make NautilusBound.compute spend minutes in the
+        # pairwise ellipsoid-overlap test; unions get this cloud, the others
+        # a cheaper one
+        cloud['kind'] = rng.choice(['two', 'three', 'blob'])
+    if cloud['kind'] == 'many':
+        cloud['d'] = d = min(d, 3)
     spec = dict(
         cls=cls, cloud=cloud,
         enlarge=rng.choice([1.01, 1.05, 1.1, 1.1, 1.5, 2.0]),
@@ -427,6 +454,13 @@ def check_c13_records(s, u, step, what):
              'missing, {} extra)'.format(
                  what, len(allidx), len(want), len(want - set(allidx)),
                  len(set(allidx) - want)), step)
+    for j, st in enumerate(sets):
+        if len(st) < 2 * u.n_points_min and not bool(u.block[j]):
+            _bad('C13', 'may_split_flag_wrong', 'after {} ellipsoid {} holds '
+                 '{} points (< 2 x n_points_min = {}) but its may-split flag '
+                 'allows a split: the flag does not belong to this '
+                 'ellipsoid'.format(what, j, len(st), 2 * u.n_points_min),
+                 step)
     for j, b in enumerate(u.bounds):
         if not abs(float(b.log_v) - float(u.log_v_all[j])) <= 1e-9:
             _bad('C13', 'volume_record_stale', 'after {} log_v_all[{}] = {!r}'
@@ -673,8 +707,21 @@ def execute(case, props=('C07', 'C08', 'C09', 'C13'), scratch=None):
             for e in all_ellipsoids(obj):
                 check_ellipsoid_volume(e, step)
 
-        for step, op in enumerate(case['ops']):
+        expanded = []
+        for op in case['ops']:
+            if op[0] == 'split_many':
+                allow = bool(op[1]) or spec.get('member') != 'Ellipsoid'
+                expanded += [['split', allow, 'many']] * int(op[2])
+            else:
+                expanded.append(op)
+        skip_splits = False
+        for step, op in enumerate(expanded):
             kind = op[0]
+            if kind == 'split' and len(op) > 2:
+                if skip_splits:
+                    continue        # the series ended at the first refusal
+            else:
+                skip_splits = False
             stats['ops'][kind] = stats['ops'].get(kind, 0) + 1
             if kind in ('split', 'trim'):
                 if cname != 'Union':
@@ -696,6 +743,10 @@ def execute(case, props=('C07', 'C08', 'C09', 'C13'), scratch=None):
                     raise
                 if kind == 'split':
                     stats['splits_ok' if ok else 'splits_refused'] += 1
+                    if not ok and len(op) > 2:
+                        skip_splits = True
+                    stats['max_members'] = max(stats.get('max_members', 0),
+                                               len(obj.bounds))
                 else:
                     stats['trims_ok' if ok else 'trims_refused'] += 1
                 after_sets, _ = union_sets(s, obj)
@@ -1032,6 +1083,7 @@ def draw_ops(rng, spec, profile):
         if spec['member'] == 'Ellipsoid':
             alphabet += ['split_f'] * profile.get('w_split', 3)
         alphabet += ['trim'] * profile.get('w_trim', 2)
+        alphabet += ['split_many'] * profile.get('w_split_many', 1)
     if cls in ('UnitCube', 'Ellipsoid', 'Mixture', 'Union', 'NautilusBound'):
         alphabet += ['sample'] * profile.get('w_sample', 3)
     if cls == 'NautilusBound':
@@ -1045,6 +1097,9 @@ def draw_ops(rng, spec, profile):
             ops.append(['split', True])
         elif a == 'split_f':
             ops.append(['split', False])
+        elif a == 'split_many':
+            ops.append(['split_many', rng.random() < 0.5,
+                        rng.choice([4, 12, 20])])
         elif a == 'trim':
             ops.append(['trim', rng.choice([1e3, 10.0, 2.0, 1.0, 0.5])])
         elif a == 'sample':
